@@ -401,7 +401,16 @@ func (w *vcWorld) barrierVia(ch chan cla.ConvergenceStatus, sender cla.Convergen
 	if err := vcInject(ch, cla.NewConvergenceReceivedBundle(sender, bpv7.DtnNone(), &b)); err != nil {
 		return err
 	}
-	return w.waitBarrier()
+	if err := w.waitBarrier(); err != nil {
+		return err
+	}
+	// the handler's last act on the barrier bundle is to remove it from the store: only then is it idle again
+	// (otherwise that removal overlaps with the next event, which no behaviour of the specification asks for)
+	bid := b.ID()
+	for t0 := time.Now(); time.Since(t0) < 3*time.Second && w.c.store.KnowsBundle(bid); {
+		time.Sleep(100 * time.Microsecond)
+	}
+	return nil
 }
 
 func (w *vcWorld) barrier() error { return w.barrierVia(w.bcla.ch, w.bcla) }
@@ -580,12 +589,51 @@ func (w *vcWorld) takeOutputs() (sends []vcSent, delivered []string) {
 // ---- actions ---------------------------------------------------------------------------------------------
 
 func (w *vcWorld) submit(name string) error {
+	if err := w.submitOnly(name); err != nil {
+		return err
+	}
+	return w.submitBarrier()
+}
+
+func (w *vcWorld) submitOnly(name string) error {
 	b := w.fresh(name)
 	select {
 	case w.ag.send <- agent.BundleMessage{Bundle: b}:
+		return nil
 	case <-time.After(10 * time.Second):
 		return errors.New("deadlock: the node does not take a bundle from the application agent")
 	}
+}
+
+// race: a bundle arrives from its peer while the application submits another one: the Core's handler and the agent manager's
+// goroutine work on the shared store at the same time.
+func (w *vcWorld) race(recvName, submitName string) error {
+	p := w.peers[w.cat[recvName].Origin]
+	rb := w.fresh(recvName)
+	w.build(submitName)
+	start := make(chan struct{})
+	errs := make(chan error, 2)
+	go func() {
+		<-start
+		errs <- vcInject(p.ch, cla.NewConvergenceReceivedBundle(p, bpv7.DtnNone(), &rb))
+	}()
+	go func() {
+		<-start
+		errs <- w.submitOnly(submitName)
+	}()
+	close(start)
+	for i := 0; i < 2; i++ {
+		if err := <-errs; err != nil {
+			return err
+		}
+	}
+	if err := w.barrierVia(p.ch, p); err != nil {
+		return err
+	}
+	return w.submitBarrier()
+}
+
+func (w *vcWorld) submitBarrier() error {
 	// sentinel submission queued behind: comes back to the agent only after the real one was processed completely
 	s := w.barrierBundle()
 	s.PrimaryBlock.SourceNode = bpv7.MustNewEndpointID("dtn://node/barrier")
